@@ -54,6 +54,200 @@ theorem arms_reach_expected :
       ((Generated.shimCalls.filter fun r => r.1 == fn && r.2.1 == cl).map (·.2.2.2)) == expectedCallee fn cl) = true := by
   decide
 
+/-! ### the control shape of the dispatching functions
+
+  `shimCalls` / `shimAsserts` say which runtime functions and descriptor types occur in an arm.  The
+  model (`shimEqual`, `shimUnary`, `C12.csHas` …) assumes more: that an arm is *nothing but* the type
+  assertion of the descriptor (where there is one), the refusal when it fails, and the runtime's call
+  whose result is returned as it is — no early return in front of the switch, no second condition next
+  to `ok`, no local helper in between.  The regenerated statement skeletons make that checkable. -/
+
+/-- the statements each `switch MsgType` arm must consist of: for the three classes the type assertion of the
+    descriptor (accessors only), the refusal when it fails (`false` / an error; `ClearExtension` falls through to
+    its documented panic), and the owning runtime's call, its result returned as it is; for everything else the
+    documented zero result -/
+def expectedArms : List (String × String × List String) := [
+  ("Clone", "MessageTypeGogo",
+    ["0:return gogo.Clone(m.(gogo.Message))"]),
+  ("Clone", "MessageTypeGoogle",
+    ["0:return protov2.Clone(m.(protoreflect.ProtoMessage))"]),
+  ("Clone", "MessageTypeGoogleV1",
+    ["0:return golang.Clone(m.(protoiface.MessageV1))"]),
+  ("Clone", "default",
+    ["0:return nil"]),
+  ("Equal", "MessageTypeGogo",
+    ["0:return gogo.Equal(m1.(gogo.Message), m2.(gogo.Message))"]),
+  ("Equal", "MessageTypeGoogle",
+    ["0:return protov2.Equal(m1.(protoreflect.ProtoMessage), m2.(protoreflect.ProtoMessage))"]),
+  ("Equal", "MessageTypeGoogleV1",
+    ["0:return golang.Equal(m1.(protoiface.MessageV1), m2.(protoiface.MessageV1))"]),
+  ("Equal", "default",
+    ["0:return false"]),
+  ("MarshalText", "MessageTypeGogo",
+    ["0:return gogo.MarshalTextString(msg.(gogo.Message)), nil"]),
+  ("MarshalText", "MessageTypeGoogle",
+    ["0:return prototext.Format(msg.(protoreflect.ProtoMessage)), nil"]),
+  ("MarshalText", "MessageTypeGoogleV1",
+    ["0:return golang.MarshalTextString(msg.(protoiface.MessageV1)), nil"]),
+  ("MarshalText", "default",
+    ["0:return \"…\", fmt.Errorf(\"…\", msg)"]),
+  ("RangeExtensions", "MessageTypeGogo",
+    ["0:exts, err := gogo.ExtensionDescs(msg.(gogo.Message))",
+     "0:if err != nil",
+     "1:return err",
+     "0:for _, ext range exts",
+     "1:if err = fn(ext, ext.Name, ext.Field); err != nil",
+     "2:return err",
+     "0:return nil"]),
+  ("RangeExtensions", "MessageTypeGoogle",
+    ["0:var err error",
+     "0:protov2.RangeExtensions(msg.(protoreflect.ProtoMessage), func#1)",
+     "1:func#1",
+     "2:err = fn(v, string(t.TypeDescriptor().FullName()), int32(t.TypeDescriptor().Descriptor().Number()))",
+     "2:return err == nil",
+     "0:return err"]),
+  ("RangeExtensions", "MessageTypeGoogleV1",
+    ["0:exts, err := golang.ExtensionDescs(msg.(protoiface.MessageV1))",
+     "0:if err != nil",
+     "1:return err",
+     "0:for _, ext range exts",
+     "1:if err = fn(ext, string(ext.TypeDescriptor().FullName()), int32(ext.TypeDescriptor().Descriptor().Number())); err != nil",
+     "2:return err",
+     "0:return nil"]),
+  ("RangeExtensions", "MessageTypeUnknown",
+    ["0:return fmt.Errorf(\"…\", msg)"]),
+  ("HasExtension", "MessageTypeGogo",
+    ["0:ed, ok := ext.(*gogo.ExtensionDesc)",
+     "0:if !ok",
+     "1:return false",
+     "0:return gogo.HasExtension(msg.(gogo.Message), ed)"]),
+  ("HasExtension", "MessageTypeGoogle",
+    ["0:et, ok := ext.(protoreflect.ExtensionType)",
+     "0:if !ok",
+     "1:return false",
+     "0:return protov2.HasExtension(msg.(protoreflect.ProtoMessage), et)"]),
+  ("HasExtension", "MessageTypeGoogleV1",
+    ["0:ed, ok := ext.(*protoimpl.ExtensionInfo)",
+     "0:if !ok",
+     "1:return false",
+     "0:return golang.HasExtension(msg.(protoiface.MessageV1), ed)"]),
+  ("HasExtension", "default",
+    ["0:return false"]),
+  ("ClearExtension", "MessageTypeGogo",
+    ["0:if ed, ok := ext.(*gogo.ExtensionDesc); ok",
+     "1:gogo.ClearExtension(msg.(gogo.Message), ed)",
+     "1:return"]),
+  ("ClearExtension", "MessageTypeGoogle",
+    ["0:if et, ok := ext.(protoreflect.ExtensionType); ok",
+     "1:protov2.ClearExtension(msg.(protoreflect.ProtoMessage), et)",
+     "1:return"]),
+  ("ClearExtension", "MessageTypeGoogleV1",
+    ["0:if ed, ok := ext.(*protoimpl.ExtensionInfo); ok",
+     "1:golang.ClearExtension(msg.(protoiface.MessageV1), ed)",
+     "1:return"]),
+  ("ClearExtension", "default",
+    ["0:panic(fmt.Sprintf(\"…\", msg))"]),
+  ("GetExtension", "MessageTypeGogo",
+    ["0:ed, ok := ext.(*gogo.ExtensionDesc)",
+     "0:if !ok",
+     "1:return nil, fmt.Errorf(\"…\", ext)",
+     "0:return gogo.GetExtension(msg.(gogo.Message), ed)"]),
+  ("GetExtension", "MessageTypeGoogle",
+    ["0:et, ok := ext.(protoreflect.ExtensionType)",
+     "0:if !ok",
+     "1:return nil, fmt.Errorf(\"…\", ext)",
+     "0:return protov2.GetExtension(msg.(protoreflect.ProtoMessage), et), nil"]),
+  ("GetExtension", "MessageTypeGoogleV1",
+    ["0:ed, ok := ext.(*protoimpl.ExtensionInfo)",
+     "0:if !ok",
+     "1:return nil, fmt.Errorf(\"…\", ext)",
+     "0:return golang.GetExtension(msg.(protoiface.MessageV1), ed)"]),
+  ("GetExtension", "default",
+    ["0:return nil, fmt.Errorf(\"…\", msg)"]),
+  ("SetExtension", "MessageTypeGogo",
+    ["0:ed, ok := ext.(*gogo.ExtensionDesc)",
+     "0:if !ok",
+     "1:return fmt.Errorf(\"…\", ext)",
+     "0:return gogo.SetExtension(msg.(gogo.Message), ed, val)"]),
+  ("SetExtension", "MessageTypeGoogle",
+    ["0:et, ok := ext.(protoreflect.ExtensionType)",
+     "0:if !ok",
+     "1:return fmt.Errorf(\"…\", ext)",
+     "0:protov2.SetExtension(msg.(protoreflect.ProtoMessage), et, val)",
+     "0:return nil"]),
+  ("SetExtension", "MessageTypeGoogleV1",
+    ["0:ed, ok := ext.(*protoimpl.ExtensionInfo)",
+     "0:if !ok",
+     "1:return fmt.Errorf(\"…\", ext)",
+     "0:return golang.SetExtension(msg.(protoiface.MessageV1), ed, val)"]),
+  ("SetExtension", "default",
+    ["0:return fmt.Errorf(\"…\", ext)"]),
+  ("ClearAllExtensions", "MessageTypeGogo",
+    ["0:gogo.ClearAllExtensions(msg.(gogo.Message))"]),
+  ("ClearAllExtensions", "MessageTypeGoogle",
+    ["0:m := msg.(protoreflect.ProtoMessage)",
+     "0:protov2.RangeExtensions(m, func#1)",
+     "1:func#1",
+     "2:protov2.ClearExtension(m, xt)",
+     "2:return true"]),
+  ("ClearAllExtensions", "MessageTypeGoogleV1",
+    ["0:golang.ClearAllExtensions(msg.(protoiface.MessageV1))"]),
+  ("ClearAllExtensions", "default",
+    [])]
+
+/-- **every arm of every dispatching function is exactly the assertion / refusal / runtime call the model
+    takes it for** (an extra condition next to `ok`, an extra statement, a local helper, a result that is not
+    returned as it is, a missing or an additional arm — all break this lemma).  The extractor lists the arms of
+    a function by case name, so the order in which the source writes them does not matter. -/
+theorem shimArms_ok : Generated.shimArms = expectedArms := by rfl
+
+/-- every function has exactly one arm for each of the three classes and one for everything else -/
+theorem shimArms_complete :
+    (shimFns.all fun fn => (classes ++ [if fn == "RangeExtensions" then "MessageTypeUnknown" else "default"]).all fun cl =>
+      (expectedArms.filter fun a => a.1 == fn && a.2.1 == cl).length == 1) = true ∧
+    expectedArms.length = 4 * shimFns.length := by decide
+
+/-- the statements around the switch: nothing in front of the dispatch but the classification itself (and, for
+    `Equal`, the comparison of the two classes; for `MarshalText`, the `encoding.TextMarshaler` probe);
+    nothing behind it but the documented mismatch panic of `ClearExtension` -/
+def expectedFrames : List (String × List String) := [
+  ("Clone",
+    ["0:switch MsgType(m)", "1:cases MessageTypeGogo,MessageTypeGoogle,MessageTypeGoogleV1,default"]),
+  ("Equal",
+    ["0:t1, t2 := MsgType(m1), MsgType(m2)",
+     "0:if t1 != t2",
+     "1:return false",
+     "0:switch t1",
+     "1:cases MessageTypeGogo,MessageTypeGoogle,MessageTypeGoogleV1,default"]),
+  ("MarshalText",
+    ["0:if tm, ok := msg.(encoding.TextMarshaler); ok",
+     "1:res, err := tm.MarshalText()",
+     "1:if err != nil",
+     "2:return \"…\", err",
+     "1:return string(res), nil",
+     "0:switch MsgType(msg)",
+     "1:cases MessageTypeGogo,MessageTypeGoogle,MessageTypeGoogleV1,default"]),
+  ("RangeExtensions",
+    ["0:msgType := MsgType(msg)",
+     "0:switch msgType",
+     "1:cases MessageTypeGogo,MessageTypeGoogle,MessageTypeGoogleV1,MessageTypeUnknown",
+     "0:return nil"]),
+  ("HasExtension",
+    ["0:switch MsgType(msg)", "1:cases MessageTypeGogo,MessageTypeGoogle,MessageTypeGoogleV1,default"]),
+  ("ClearExtension",
+    ["0:switch MsgType(msg)",
+     "1:cases MessageTypeGogo,MessageTypeGoogle,MessageTypeGoogleV1,default",
+     "0:panic(fmt.Sprintf(\"…\", ext, msg))"]),
+  ("GetExtension",
+    ["0:switch MsgType(msg)", "1:cases MessageTypeGogo,MessageTypeGoogle,MessageTypeGoogleV1,default"]),
+  ("SetExtension",
+    ["0:switch MsgType(msg)", "1:cases MessageTypeGogo,MessageTypeGoogle,MessageTypeGoogleV1,default"]),
+  ("ClearAllExtensions",
+    ["0:switch MsgType(msg)", "1:cases MessageTypeGogo,MessageTypeGoogle,MessageTypeGoogleV1,default"])]
+
+/-- **no dispatching function decides anything before or after its `switch MsgType`** -/
+theorem shimFrame_ok : Generated.shimFrame = expectedFrames := by rfl
+
 /-- the classification skeleton of `deduceMsgType` (what `Model.deduce` mirrors branch by branch) -/
 theorem deduceSkeleton_ok : Generated.deduceSkeleton =
     ["0:if assert google.golang.org/protobuf/reflect/protoreflect.ProtoMessage", "1:return MessageTypeGoogle",
